@@ -192,7 +192,8 @@ func (s *vfC02BlipSession) askAttachment(a *vfC02Att) {
 	s.mu.Unlock()
 }
 
-func (w *vfC02World) runBlip(u *vfC02User, plan *vfC02BlipPlan) (s *vfC02BlipSession, err error) {
+// openBlip connects the repository's BlipTesterClient as the user and installs the recording handlers.
+func (w *vfC02World) openBlip(u *vfC02User, plan *vfC02BlipPlan) (s *vfC02BlipSession, err error) {
 	defer func() {
 		if r := recover(); r != nil {
 			if ie, ok := r.(kit.InconclusiveErr); ok {
@@ -209,7 +210,6 @@ func (w *vfC02World) runBlip(u *vfC02User, plan *vfC02BlipPlan) (s *vfC02BlipSes
 	s.client = runner.NewBlipTesterClientOptsWithRT(w.rt, &BlipTesterClientOpts{
 		Username: u.Name, AllowCreationWithoutBlipTesterClientRunner: true, ClientDeltas: plan.Deltas, sendReplacementRevs: plan.Replacement,
 	})
-	defer s.client.Close()
 	s.btcc = runner.SingleCollection(s.client.id)
 	bc := s.client.pullReplication.bt.blipContext
 	origRev := bc.HandlerForProfile[db.MessageRev]
@@ -292,6 +292,50 @@ func (w *vfC02World) runBlip(u *vfC02User, plan *vfC02BlipPlan) (s *vfC02BlipSes
 		s.norevs++
 		s.mu.Unlock()
 	}
+	return s, nil
+}
+
+func (s *vfC02BlipSession) Close() {
+	defer func() { _ = recover() }()
+	if s != nil && s.client != nil {
+		s.client.Close()
+	}
+}
+
+// has reports whether anything received so far contains the text.
+func (s *vfC02BlipSession) has(text string) bool {
+	s.mu.Lock()
+	defer s.mu.Unlock()
+	for _, c := range s.chunks {
+		if strings.Contains(string(c), text) {
+			return true
+		}
+	}
+	return false
+}
+
+func (s *vfC02BlipSession) problem() string {
+	s.mu.Lock()
+	defer s.mu.Unlock()
+	return s.trouble
+}
+
+func (w *vfC02World) runBlip(u *vfC02User, plan *vfC02BlipPlan) (s *vfC02BlipSession, err error) {
+	defer func() {
+		if r := recover(); r != nil {
+			if ie, ok := r.(kit.InconclusiveErr); ok {
+				err = ie
+				return
+			}
+			err = vfC02Infra{fmt.Sprintf("BLIP client panic: %v", r)}
+		}
+	}()
+	s, err = w.openBlip(u, plan)
+	if err != nil {
+		s.Close()
+		return s, err
+	}
+	defer s.Close()
 	s.btcc.StartPullSince(BlipTesterPullOptions{Continuous: false, Since: "0", ActiveOnly: plan.ActiveOnly, Channels: plan.Channels, DocIDs: plan.DocIDs})
 	deadline := time.Now().Add(vfC02WaitBound)
 	for {
